@@ -8,7 +8,7 @@ Separate Extraction
   Packet.packet_eqb Packet.get_id Packet.type_code Packet.type_of_code Packet.ptype_of
   Conn.step Conn.bc_init Conn.bc_run
   ConnSpec.c20_gate ConnSpec.c20_single_connack ConnSpec.c20_responses
-  ConnSpec.c07_pubrec_after_store ConnSpec.c07_no_publish_after_release ConnSpec.c07_single_release
-  ConnSpec.c07_pubrel_answered ConnSpec.sync_acks
+  ConnSpec.c07_pubrec_after_store ConnSpec.c07_no_publish_after_release ConnSpec.c07_single_ack
+  ConnSpec.c07_pubrel_answered ConnSpec.prompt_acks
   ConnSpec.c08_store_before_send ConnSpec.c08_kept_until_acked ConnSpec.c08_resend ConnSpec.c08_no_second_new
   ConnSpec.c16_bound ConnSpec.c12_will.
